@@ -202,8 +202,11 @@ class Adapter:
       blocks = {}
       for name in self.names:
         vals = [t.parameters[name].value for t in raw]
-        if all(isinstance(v, str) for v in vals):
-          blocks[name] = np.asarray(vals, dtype=object).reshape(-1, 1)
+        if all(isinstance(v, (str, bool)) for v in vals):
+          # categorical values pass through unchanged (a boolean parameter may
+          # carry a Python bool)
+          blocks[name] = np.asarray([str(v) for v in vals],
+                                    dtype=object).reshape(-1, 1)
         else:
           blocks[name] = np.asarray(vals, dtype=np.float64).reshape(-1, 1)
     return raw, blocks, info
